@@ -701,6 +701,19 @@ Fixpoint run_session (o : opts) (b : builder) (pos : nat) (cs : list scmd) : lis
 Definition feed (o : opts) (b : builder) (cs : list cmd) : builder :=
   fold_left (fun b c => fst (ab_step o b c)) cs b.
 
+(* the same, stopping at the first exception *)
+Fixpoint run (o : opts) (b : builder) (cs : list cmd) : res builder :=
+  match cs with
+  | [] => Ok b
+  | c :: t => match ab_step o b c with
+              | (b', None) => run o b' t
+              | (_, Some e) => Err e
+              end
+  end.
+
+(* what an observer reads from a state: the snapshot as nested values *)
+Definition observe (b : builder) : res (list value) := do c <- snapshot b; to_list c.
+
 (* ------------------------------------------------------------------ from_iter and the specification *)
 (* Python values as ak.from_iter sees them (ints and floats are distinguished here, not in Layout.value) *)
 Inductive pyval :=
